@@ -22,12 +22,14 @@ var c10Runes = []rune{
 	0, 1, 7, 8, 9, 10, 10, 11, 12, 13, 0x1b, 0x1f, 0x7f,
 	0x80, 0x85, 0xa0, 0xe9, 0xff, 0x100, 0x7ff, 0x800, 0x2028, 0x2029, 0x200b, 0x202e, 0xfeff, 0xfffd, 0xfffe, 0xffff,
 	0xd7ff, 0xe000, 0x10000, 0x1f600, 0x10ffff, 0x4e16, 0x0663,
+	0x0301, 0x2000, 0x212b, 0x1161, // not NFC-stable (alone or after a base letter)
 }
 
 var c10Words = []string{
 	"", "a", "ab", "key", "if", "for", "let", "in", "true", "false", "null", "_", "_a", "#a", "_#a", "__a", "#", "a-b", "a.b", "a b", "0", "1x", "x1",
 	"\"\"", "\"\"x", "\"\"\"", "\"", "\"#", "\"\"#", "'''", "\\", "\\(", "\\(a)", "\\#(", "#\"", "\"#\"#", "\\n", "\\u0041",
 	"// not a comment", "/* x */", "a: b", "{a: 1}", "[1, 2]", "1_000", "0x10", "<script>", "a&b", "</",
+	"e\u0301", "A\u030c", "\u212b", "\u2000x", "caf\u00e9", "cafe\u0301",
 	"line one\nline two", "\n", "\n\n", "a\n", "\nb", "tab\there", "cr\rhere", "crlf\r\nhere", "trailing\\",
 	"a long string that is certainly longer than ten characters", "long with \"quotes\" and \\backslashes\\ inside it",
 	"long with\nnewlines\n\tand tabs\n", "long with \"\"\" triple quotes\nand a newline", "\t\n indented \n\t",
@@ -313,6 +315,40 @@ func (v *jv) canon(sb *strings.Builder) {
 		}
 		sb.WriteByte('}')
 	}
+}
+
+// strict is String with the CUE number kind made visible (0 and 0e0 are the same JSON number
+// but an int and a float for CUE, which refuses to unify them)
+func (v *jv) strict() string {
+	var sb strings.Builder
+	var rec func(v *jv)
+	rec = func(v *jv) {
+		switch v.kind {
+		case '#':
+			n, _ := c10NormNum(v.num)
+			sb.WriteString(n)
+			if strings.ContainsAny(v.num, ".eE") {
+				sb.WriteString("f")
+			} else {
+				sb.WriteString("i")
+			}
+		case 'a', 'o':
+			sb.WriteByte(v.kind)
+			sb.WriteByte('(')
+			for i, e := range v.elems {
+				if v.kind == 'o' {
+					fmt.Fprintf(&sb, "%q:", v.keys[i])
+				}
+				rec(e)
+				sb.WriteByte(',')
+			}
+			sb.WriteByte(')')
+		default:
+			v.canon(&sb)
+		}
+	}
+	rec(v)
+	return sb.String()
 }
 
 func (v *jv) String() string {
